@@ -57,6 +57,10 @@ type Op struct {
 	// script's account metadata from here instead of from the result the implementation
 	// returned, so that a merge that loses script keys is not mirrored by the reference.
 	ScriptAccMeta map[string]map[string]string `json:"scriptAccMeta,omitempty"`
+	// DeadlockAt > 0: the n-th driver call (exec/query) issued while this operation runs
+	// fails, once, with SQLSTATE 40P01. The ledger retries a deadlock victim (forgeLogRetry): the
+	// operation is then expected to behave exactly as without the fault (sequence explorers only).
+	DeadlockAt int `json:"deadlockAt,omitempty"`
 	TSOff   *int64                       `json:"tsOffUs,omitempty"` // explicit timestamp = Base + TSOff µs
 	Ref     string                       `json:"ref,omitempty"`
 	IK      string                       `json:"ik,omitempty"`
